@@ -2672,7 +2672,8 @@ class RepeatUntil(Subconstruct):
         predicate = self.predicate
         discard = self.discard
         if not callable(predicate):
-            predicate = lambda _1,_2,_3: predicate
+            constant = predicate
+            predicate = lambda _1,_2,_3: constant
         obj = ListContainer()
         for i in itertools.count():
             context._index = i
@@ -2686,7 +2687,8 @@ class RepeatUntil(Subconstruct):
         predicate = self.predicate
         discard = self.discard
         if not callable(predicate):
-            predicate = lambda _1,_2,_3: predicate
+            constant = predicate
+            predicate = lambda _1,_2,_3: constant
         partiallist = ListContainer()
         retlist = ListContainer()
         for i,e in enumerate(obj):
